@@ -311,7 +311,7 @@ def c05(tier, seed):
         "trusted_base": ["extraction rules R1-R11; env/macro_type_env.rs: uninterpreted option reads; assume_specification for i64::from(u8|u16|u32) (lossless widening)",
                          "C-model table kind_bits/kind_signed written from the kinds' names (contracts/macro_type.py)",
                          "env/eval_int_env.rs: each libclang evaluator entry point is a distinct uninterpreted function of the result handle (rule R20: `unsafe { f(x) }` -> `{ f(x) }`, FFI functions are safe stubs); an out-of-range `u64 as i64` cast is the same (unspecified but fixed) function on both sides of the contract"],
-        "functions_under_contract": ["bindgen/ir/var.rs: default_macro_constant_type", "bindgen/ir/int.rs: IntKind::is_signed, IntKind::known_size",
+        "functions_under_contract": ["bindgen/ir/var.rs: the function-like-macro guard of Var::parse (unit char_macro, statements R18 up to the use of the evaluated value: a function-like macro never reaches the expression evaluator, with or without callbacks; found and repaired F31) and the `is_float` statement (a floating-point constant only for float / double variables; found and repaired F32)", "bindgen/ir/var.rs: default_macro_constant_type", "bindgen/ir/int.rs: IntKind::is_signed, IntKind::known_size",
                                      "bindgen/clang.rs: EvalResult::kind, EvalResult::as_int (which libclang getter supplies the value of a const initialiser / fallback macro); Cursor::enum_val_signed / enum_val_unsigned / enum_val_boolean (enumerator values: the getter matching the signedness)",
                                      "bindgen/codegen/mod.rs: the repr-translation statement of <Enum as CodeGenerator>::codegen (unit macro_type, let-statement R18): the translated integer type has the enum's width and signedness",
                                      "bindgen/ir/enum_ty.rs: the value-selection statement of Enum::from_ty (let-statement, R18): bool enums their truth value, signed enums the signed getter, unsigned enums the unsigned getter",
@@ -369,10 +369,11 @@ def c08(tier, seed):
         return units_incrate.run_spec(units_incrate.derive_tables_spec())
     return _verus_prop("C08", tier, seed, [("derive_gate", None, None), ("derives", None, None), ("constrain", None, None), ("fn_abi", r"function_pointers_can_derive", None),
                                            # the float exclusion for Eq/Ord and the derive analysis' own subscriptions are C08 mechanisms too
-                                           ("edges", r"::(has_float_consider_edge|consider_edge_default)::", None), ("has_float", None, None), ("union_repr", r"::CompInfo::is_rust_union::", None), ("bitfield_limit", None, None), ("impl_debug", None, None)], {
+                                           ("edges", r"::(has_float_consider_edge|consider_edge_default)::", None), ("has_float", None, None), ("union_repr", r"::CompInfo::is_rust_union::", None), ("bitfield_limit", None, None), ("impl_debug", None, None), ("opaque_wrapper", None, None)], {
         "trusted_base": INCRATE_TRUST + ["env/derive_gate_env.rs: uninterpreted options and analysis lookups; generic impl<T> instantiated at T = ItemId",
                                         "rule-table oracle written from the property statement (kani_incrate/derive_tables.rs)"],
-        "functions_under_contract": ["bindgen/ir/context.rs: the eight impl<T> CanDerive{Debug,Default,Copy,Hash,PartialOrd,PartialEq,Eq,Ord} for T bodies",
+        "functions_under_contract": ["bindgen/codegen/mod.rs: the derive decision of a forward-declared struct in CompInfo::codegen (unit derives, let-statement R18: only Debug, and only when no option, pattern or annotation switches it off; found and repaired F34) and the statements of utils::prepend_opaque_array_types that build one wrapper definition (unit opaque_wrapper, templates by rule R4u: the __BindgenOpaqueArrayN wrappers name PartialOrd / Ord whenever those derives are requested; found and repaired F33)",
+                                     "bindgen/ir/context.rs: the eight impl<T> CanDerive{Debug,Default,Copy,Hash,PartialOrd,PartialEq,Eq,Ord} for T bodies",
                                      "bindgen/ir/analysis/derive.rs: CannotDerive::constrain_type (the whole per-type rule: blocklisted, excluded by name, opaque, simple kinds, pointers/fn pointers, arrays, vectors, compounds, type references, template instantiations) and DeriveTrait::{not_by_name, can_derive_*} (Verus unit constrain; member join = uninterpreted s_join)",
                                      "bindgen/ir/comp.rs: CompInfo::has_too_large_bitfield_unit (unit bitfield_limit; Iterator::any desugared by rule R25): true exactly when SOME bit-field allocation unit is larger than the 32-element limit",
                                      "bindgen/ir/analysis/has_float.rs: HasFloat::{consider_edge, insert, constrain} (the 'floats for Eq/Ord' exclusion: the rule's fix-point equation and that every edge it reads along is subscribed; same obligations as under C07)",
